@@ -141,6 +141,11 @@ def gen_value(rng, kn, classes, depth=None):
     if depth <= 0 or r < kn.get("atom_p", 0.55):
         return gen_atom(rng, kn, classes)
     c = rng.choice(kn.get("containers", ["l", "l", "st", "t", "t", "d", "d", "dd"]))
+    if c == "ld":
+        # list of small string-key dicts with differing key sets (TypedDict merges with optional keys)
+        ks = kn.get("key_space", 5)
+        return ["l", [["d", [[["s", "k%d" % rng.randrange(ks)], gen_atom(rng, kn, classes)] for _ in range(rng.choice([1, 1, 2]))][:1 + rng.randrange(2)]]
+                      for _ in range(rng.choice([1, 2, 2, 3]))]]
     if c == "l":
         return ["l", [gen_value(rng, kn, classes, depth - 1) for _ in range(rng.choice([0, 1, 2, 3]))]]
     if c == "st":
@@ -150,3 +155,26 @@ def gen_value(rng, kn, classes, depth=None):
     if c == "d":
         return ["d", gen_dict_items(rng, kn, classes, depth)]
     return ["dd", [[gen_hashable(rng, kn, classes, 0), gen_value(rng, kn, classes, depth - 1)] for _ in range(rng.choice([0, 1, 2]))]]
+
+
+BURST_FAMILIES = ["tuples", "atoms", "dicts", "lists", "mixed"]
+
+
+def gen_burst_value(rng, family, classes, kn):
+    """Values for a burst of many calls of one function (many traces merged at one position)."""
+    if family == "tuples":
+        kind = rng.choice(["i", "s", "i", "s", "f", "n"])
+        mk = {"i": lambda: ["i", rng.randrange(3)], "s": lambda: ["s", rng.choice(["a", "b"])], "f": lambda: ["f", 0.5], "n": lambda: ["n"]}[kind]
+        return ["t", [mk() for _ in range(rng.randrange(0, 7))]]
+    if family == "atoms":
+        r = rng.randrange(9)
+        return [["i", 1], ["s", "x"], ["f", 1.5], ["n"], ["by", "ab"], ["b", True], ["o", rng.choice(classes)] if classes else ["i", 2],
+                ["c", rng.choice(classes)] if classes else ["s", "y"], ["fn", "len"]][r]
+    if family == "dicts":
+        ks = kn.get("key_space", 5)
+        n = rng.choice([1, 1, 2])
+        keys = rng.sample(range(ks), min(n, ks))
+        return ["d", [[["s", "k%d" % k], gen_atom(rng, kn, classes)] for k in keys]]
+    if family == "lists":
+        return ["l", [gen_burst_value(rng, rng.choice(["atoms", "dicts", "tuples"]), classes, kn) for _ in range(rng.randrange(0, 3))]]
+    return gen_value(rng, kn, classes)
